@@ -37,7 +37,7 @@ class Kernel:
 
 def lean_ident(n: str) -> str:
     # Lean identifiers may start with underscore; keep python names, escape a few keywords
-    if n in {"end", "at", "from", "to", "in", "open", "local", "instance", "section", "prefix", "show", "have"}:
+    if n in {"end", "at", "from", "to", "in", "open", "local", "instance", "section", "prefix", "module", "import", "theorem", "def", "fun", "then", "else", "do", "where", "with", "match", "let", "show", "have"}:
         return n + "'"
     return n
 
@@ -358,21 +358,22 @@ class ModuleTranslator:
             for v in variants:
                 body = k.body.replace("{V}", v)
                 out.append(f"/-- generated from `{k.name}` ({self.path.name}:{k.lineno}) -/\n"
-                           f"def {lean_ident(k.name)}{v} {params} : {rt} :=\n  {body}\n")
+                           f"@[kernel_defs] def {lean_ident(k.name)}{v} {params} : {rt} :=\n  {body}\n")
         return "\n".join(out)
 
 
-PRELUDE = """/-! Helpers shared by generated kernels (signed / unsigned order comparisons, digitize). -/
+PRELUDE = """import Pybes3Verif.Util.Attr
+/-! Helpers shared by generated kernels (signed / unsigned order comparisons, digitize). -/
 namespace Pybes3Verif.Gen
 
-@[inline] def cmp_lt_s (a b : BitVec 64) : Bool := a.slt b
-@[inline] def cmp_le_s (a b : BitVec 64) : Bool := a.sle b
-@[inline] def cmp_gt_s (a b : BitVec 64) : Bool := b.slt a
-@[inline] def cmp_ge_s (a b : BitVec 64) : Bool := b.sle a
-@[inline] def cmp_lt_u (a b : BitVec 64) : Bool := a.ult b
-@[inline] def cmp_le_u (a b : BitVec 64) : Bool := a.ule b
-@[inline] def cmp_gt_u (a b : BitVec 64) : Bool := b.ult a
-@[inline] def cmp_ge_u (a b : BitVec 64) : Bool := b.ule a
+@[kernel_defs] def cmp_lt_s (a b : BitVec 64) : Bool := a.slt b
+@[kernel_defs] def cmp_le_s (a b : BitVec 64) : Bool := a.sle b
+@[kernel_defs] def cmp_gt_s (a b : BitVec 64) : Bool := b.slt a
+@[kernel_defs] def cmp_ge_s (a b : BitVec 64) : Bool := b.sle a
+@[kernel_defs] def cmp_lt_u (a b : BitVec 64) : Bool := a.ult b
+@[kernel_defs] def cmp_le_u (a b : BitVec 64) : Bool := a.ule b
+@[kernel_defs] def cmp_gt_u (a b : BitVec 64) : Bool := b.ult a
+@[kernel_defs] def cmp_ge_u (a b : BitVec 64) : Bool := b.ule a
 
 /-- `np.digitize(x, bins, right=False)`: number of bins `b` with `b ≤ x` (bins increasing). -/
 def digitize_s (bins : List Nat) (x : BitVec 64) : BitVec 64 :=
